@@ -8,6 +8,7 @@ N = int(sys.argv[1]) if len(sys.argv) > 1 else 30
 sys.path.insert(0, V)
 binp = subprocess.run([os.path.join(V, "check"), "build"], capture_output=True, text=True).stdout.split()[-1]
 props = [("C01", "repsim"), ("C02", "clustersim"), ("C07", "clustersim"), ("C09", "electsim"), ("C15", "rpcsim"), ("C14", "apifuzz"), ("C19", "clonesim"), ("C08", "crashsim")]
+if os.environ.get("DETTEST_PROPS"): props = [x for x in props if x[0] in os.environ["DETTEST_PROPS"].split(",")]
 root = tempfile.mkdtemp(prefix="dettest.")
 def one(prop, eng, i, gmp):
     d = os.path.join(root, "%s-%d-%d" % (prop, i, gmp)); os.makedirs(d)
